@@ -228,7 +228,7 @@ theorem ext_handleBeginUnstake (s : State) (a signer : Addr) : Ext s (handleBegi
       · exact Ext.refl s
       · exact ext_setWaiting _ _ _
 
-theorem ext_handleUnjail (s : State) (h t now : Int) (a signer : Addr) : Ext s (handleUnjail s h t now a signer).1 := by
+theorem ext_handleUnjail (s : State) (h t : Int) (a signer : Addr) : Ext s (handleUnjail s h t a signer).1 := by
   unfold handleUnjail
   cases aget s.vals a with
   | none => exact Ext.refl s
@@ -246,16 +246,14 @@ theorem ext_handleUnjail (s : State) (h t now : Int) (a signer : Addr) : Ext s (
             simp only
             split
             · exact Ext.refl s
-            · split
-              · exact Ext.refl s
-              · unfold unjailValidator
-                cases aget s.vals v.addr with
-                | none => exact Ext.refl s
-                | some w =>
-                  simp only
-                  split
-                  · exact Ext.refl s
-                  · exact ((ext_setValidator _ _).trans (Ext.emit _ _ rfl)).trans (ext_resetSigningInfo _ _ _)
+            · unfold unjailValidator
+              cases aget s.vals v.addr with
+              | none => exact Ext.refl s
+              | some w =>
+                simp only
+                split
+                · exact Ext.refl s
+                · exact ((ext_setValidator _ _).trans (Ext.emit _ _ rfl)).trans (ext_resetSigningInfo _ _ _)
 
 theorem ext_mintTo (s : State) (amount : Int) (to : Addr) : Ext s (mintTo s amount to) := by
   unfold mintTo fromPool
@@ -390,7 +388,7 @@ theorem ext_step {s : State} (hi : Inv s) (op : Op) : Ext s (step s op) := by
   cases op with
   | stake h m signer => exact ext_handleStake s h m signer
   | beginUnstake a signer => exact ext_handleBeginUnstake s a signer
-  | unjail h t now a signer => exact ext_handleUnjail s h t now a signer
+  | unjail h t a signer => exact ext_handleUnjail s h t a signer
   | burn a amount => exact ext_simpleSlash hi a amount
   | beginBlock h t votes evs => exact ext_beginBlock hi h t votes evs
   | endBlock h t => exact ext_endBlock hi h t
